@@ -792,7 +792,7 @@ HOT_DTYPES = [["float64", "int32"], ["float32", "int64", "uint8", "int16"]]
 def shards(tier):
     th = tier == "thorough"
     side = 16 if th else 12
-    mul = 20 if th else 1
+    mul = 80 if th else 1
     out = []
 
     def rep(name, combos_list, body, strat, per, copies):
